@@ -657,11 +657,16 @@ def run_suite(prop, name, drivers, profile, tier, seed):
         reset, ev = rv.locate(lines, gline)
         drift.append({"what": what, "driver": reset["id"] if reset else None, "i": ev.get("i", 0), "op": ev.get("op")})
     stats = trace_stats(prop, lines)
+    # keep the driver of the first violation of every signature (what a replay file needs)
     vd = {}
+    seen_sig = set()
     for v in viol:
-        k = json.dumps(v["driver"])
-        if k not in vd and len(vd) < 60:
-            vd[k] = by_id.get(k)
+        sig = signature(prop, v) if v["prop"] == prop else v["prop"]
+        if sig in seen_sig:
+            continue
+        seen_sig.add(sig)
+        vd[json.dumps(v["driver"])] = by_id.get(json.dumps(v["driver"]))
+    viol.sort(key=lambda v: 0 if json.dumps(v["driver"]) in vd else 1)
     res = {"suite": name, "profile": profile, "drivers": len(drivers), "events": val["events"], "viol": viol,
            "drift": drift, "stats": stats, "died": died, "t_harness": round(t_h, 1), "t_validate": round(t_v, 1),
            "samples": [drivers[0]["id"], drivers[len(drivers) // 2]["id"]], "viol_drivers": vd}
